@@ -138,6 +138,9 @@ use sha2::{
 pub mod audit;
 #[cfg(test)]
 mod tests;
+#[cfg(all(test, feature = "verif"))]
+#[path = "/verif/harness/merkle/mod.rs"]
+mod verif;
 
 pub use audit::{
     Audit,
